@@ -1104,4 +1104,79 @@ example :
     (readN (.lim (.pool none 8) 4) 1 NO_OFFSET [3]).2 = .eof := by
   decide
 
+/-! ## Kernel errors
+
+The kernel may answer any request with an error instead of a count. `EINTR`
+and `ECANCELED` are retried inside the operation (C09); every other error ends
+the composite future at once (`failWith`). -/
+
+/-- The future fails with the kernel's error exactly when the failed request
+was outstanding: an error is never swallowed and never made up. -/
+theorem C10_kernel_error_iff_outstanding {β : Type} (run : List Exch × Res β) (e : Nat) (q : Req) :
+    (failWith run (some e)).2 = .failed q e ↔ run.2 = .pending q := by
+  obtain ⟨es, r⟩ := run
+  cases r <;> simp [failWith]
+
+/-- A future that had already finished (success, `WriteZero`, `UnexpectedEof`)
+keeps its outcome; and nothing but the kernel's answers before the error count
+as transferred. -/
+theorem C10_kernel_error_frame {β : Type} (run : List Exch × Res β) (oe : Option Nat) :
+    (failWith run oe).1 = run.1 ∧
+    ((∀ q, run.2 ≠ .pending q) → (failWith run oe).2 = .plain run.2) := by
+  obtain ⟨es, r⟩ := run
+  cases oe with
+  | none => simp [failWith]
+  | some e => cases r <;> simp [failWith]
+
+/-- Writing futures under a kernel error: the request that failed is the
+right continuation (opcode, flags, offset, exactly the bytes not yet
+accepted), the ideal writer was not finished either, and `Ok` is returned
+despite the error only if every byte had been accepted before it. -/
+theorem C10_write_kernel_error {β : Type} {op : Opc} {flags : Nat} {positional : Bool} {off : Nat}
+    {input : List Pos} {ks : List Nat} {orig : β} {run : List Exch × Res β}
+    (h : WriteExact op flags positional off input ks orig run) (e : Nat) :
+    (∀ q, (failWith run (some e)).2 = .failed q e →
+        ReqOk op flags positional off input (sumRes run.1) q ∧
+        (specW input.length ks).2 = .pending) ∧
+    (∀ b, (failWith run (some e)).2 = .plain (.ok b) →
+        (specW input.length ks).2 = .ok ∧ b = orig) := by
+  refine ⟨fun q hq => ?_, fun b hb => ?_⟩
+  · have hp := (C10_kernel_error_iff_outstanding run e q).1 hq
+    refine ⟨h.pending q hp, ?_⟩
+    have := h.outcome
+    rw [hp] at this
+    exact this.symm
+  · obtain ⟨es, r⟩ := run
+    cases r <;> simp [failWith] at hb
+    subst hb
+    have := h.outcome
+    exact ⟨this.symm, h.extract _ rfl⟩
+
+/-- Reading futures under a kernel error. -/
+theorem C10_read_kernel_error {β : Type} {op : Opc} {flags : Nat} {positional : Bool} {off : Nat}
+    {space : List Pos} {n : Nat} {ks : List Nat} {run : List Exch × Res β}
+    (h : ReadExact op flags positional off space n ks run) (e : Nat) :
+    (∀ q, (failWith run (some e)).2 = .failed q e →
+        ReqOk op flags positional off space (sumRes run.1) q ∧
+        (specR space.length n ks).2 = .pending) ∧
+    (∀ b, (failWith run (some e)).2 = .plain (.ok b) → (specR space.length n ks).2 = .ok) := by
+  refine ⟨fun q hq => ?_, fun b hb => ?_⟩
+  · have hp := (C10_kernel_error_iff_outstanding run e q).1 hq
+    refine ⟨h.pending q hp, ?_⟩
+    have := h.outcome
+    rw [hp] at this
+    exact this.symm
+  · obtain ⟨es, r⟩ := run
+    cases r <;> simp [failWith] at hb
+    subst hb
+    exact h.outcome.symm
+
+/-- Non-vacuity: an error after partial progress, and an error that arrives
+too late to matter. -/
+example : (failWith (writeAll ⟨10, none⟩ 100 [3]) (some 5)).2
+    = .failed ⟨.write, 103, 0, false, [(3, 7)]⟩ 5 := by decide
+example : (failWith (writeAll ⟨10, none⟩ 100 [3, 7]) (some 5)).2 = .plain (.ok ⟨10, none⟩) := by decide
+example : (failWith (readN (.vec 0 8) 4 NO_OFFSET [1]) (some 104)).2
+    = .failed ⟨.read, NO_OFFSET, 0, false, [(1, 7)]⟩ 104 := by decide
+
 end A10.Composite
